@@ -320,3 +320,40 @@ Example variant_is_conversion_of_core_nonneg_r_nonvacuous :
 Proof.
   split; [repeat constructor; lra|]. intros H. inversion H; subst. lra.
 Qed.
+
+Theorem no_variant_drops_uncertainty_nonneg_r (G : gfun) (Q : rfun) (r g dg q f df : list R) cutoff (k : kw R) :
+  allnonneg r -> allpos q -> 0 < rho k -> 0 < bcoh k ->
+  length g = length r -> length dg = length r -> length f = length q -> length df = length q ->
+  let gin := fst (gconv gg G r g (Some dg) k) in
+  let dgin := snd (gconv gg G r g (Some dg) k) in
+  let yin := fst (rconv rF Q q f (Some df) k) in
+  let dyin := snd (rconv rF Q q f (Some df) k) in
+  let o := filter_variant G Q r gin q yin cutoff (Some dgin) (Some dyin) k in
+  let o0 := g_using_F r g q f cutoff (Some dg) (Some df) k in
+  dy_ft o = snd (rconv rF Q (q_ft o0) (y_ft o0) (Some (dy_ft o0)) k) /\
+  dy_c o = snd (rconv rF Q (q_c o0) (y_c o0) (Some (dy_c o0)) k) /\
+  dg_o o = snd (gconv gg G (r_o o0) (g_o o0) (Some (dg_o o0)) k).
+Proof.
+  intros Hr Hq Hp Hb Lg Ldg Lf Ldf. cbv zeta.
+  rewrite variant_normal_form, core_of_converted_nonneg_r by assumption. unfold convert_out.
+  cbn [dy_ft dy_c dg_o]. split; [reflexivity|]. split; reflexivity.
+Qed.
+
+(* the hypotheses of 2 and 3 are those of 1 *)
+Example variants_agree_nonvacuous :
+  let k := {| rho := 1; bcoh := 2; btot := 3; lorch := false; omitted := false |} in
+  let r := [1; 2; 3] in let g := [0; 1; 2] in let dg := [1; 1; 1] in
+  let q := [1; 2] in let f := [5; 6] in let df := [1; 2] in
+  allpos r /\ allpos q /\ 0 < rho k /\ 0 < bcoh k /\
+  length g = length r /\ length dg = length r /\ length f = length q /\ length df = length q.
+Proof.
+  cbn. split; [repeat constructor; lra|]. split; [repeat constructor; lra|].
+  split; [lra|]. split; [lra|]. repeat split; reflexivity.
+Qed.
+Example no_variant_drops_uncertainty_nonvacuous :
+  let k := {| rho := 1; bcoh := 2; btot := 3; lorch := true; omitted := true |} in
+  let r := [1; 2; 3] in let g := [0; 1; 2] in let dg := [1; 1; 1] in
+  let q := [1; 2] in let f := [5; 6] in let df := [1; 2] in
+  allpos r /\ allpos q /\ 0 < rho k /\ 0 < bcoh k /\
+  length g = length r /\ length dg = length r /\ length f = length q /\ length df = length q.
+Proof. exact variant_is_conversion_of_core_nonvacuous. Qed.
